@@ -48,6 +48,7 @@ FIXTURES = [
     ("c16_bad_fresh_rng_per_node", "bad", ["H4"]),
     ("c16_bad_insert_max_heap", "bad", ["H5"]),
     ("c16_good_insert_single_pass", "good", []),
+    ("c16_bad_wrapper_links_unchecked", "bad", ["H5"]),
 ]
 
 
@@ -204,7 +205,8 @@ def rule_h5(col, prog, crate, R, dirs, only_crate=False):
             if not any(v[1] for v in blocks.values()):
                 continue
             I = R.A(b) if c is crate else util.analyse(b)
-            tree_params = {i for i in range(1, b.arg_count + 1) if "TreapNode<" in str(b.locals[i]["ty"])}
+            # parameters that carry (or own) nodes: TreapNode<..> in any wrapping, and the Treap<..> owner of a root
+            tree_params = {i for i in range(1, b.arg_count + 1) if "TreapNode<" in str(b.locals[i]["ty"]) or "Treap<" in str(b.locals[i]["ty"])}
             seen = set()
             for st in I.all_end_states() if hasattr(I, "all_end_states") else I.final_states:
                 z = None
